@@ -98,6 +98,8 @@ def verify_one(args):
             out["wall_s"] = time.time() - t0
             return out
         out["n_paths"] = info["n_paths"]
+        if getattr(eng, "renamed_locals", None):
+            out["renamed_locals"] = eng.renamed_locals
         out["assumptions"] = sorted(eng.assumptions)
         out["inlined"] = sorted(eng.inlined)
         out["used_contracts"] = sorted(eng.used_contracts)
